@@ -2,7 +2,7 @@
    Model: Model/TaskSM.v (sequentially consistent, read-modify-write
    granularity); invariant: Model/TaskInv.v.  See MANIFEST level note for what
    is partial. *)
-Require Import NX.Base.Prelude NX.Model.TaskSM NX.Model.TaskInv NX.Proofs.TaskProofs NX.Proofs.TaskLayout.
+Require Import NX.Base.Prelude NX.Model.TaskSM NX.Model.TaskInv NX.Proofs.TaskProofs NX.Proofs.TaskLayout NX.Proofs.TaskMeaning.
 
 (* The invariant holds in every state reachable from spawn / spawn_and_forget
    under ANY sequence of handle operations by any number of threads and wakers
@@ -42,27 +42,7 @@ Theorem c13_meaning :
     (alloc s = true -> wakers s + b2n (token s) + b2n (promise s) + queued s + active s + b2n (cdrop s) >= 1) /\
     (alloc s = false -> deallocs s = 1 /\ futdrops s = 1 /\ wakers s = 0 /\ token s = false /\ promise s = false /\
                         queued s = 0 /\ active s = 0).
-Proof.
-  intros s H. unfold inv_b in H.
-  repeat match goal with H : _ && _ = true |- _ => apply andb_true_iff in H; destruct H end.
-  destruct (alloc s) eqn:EA.
-  - repeat match goal with H : _ && _ = true |- _ => apply andb_true_iff in H; destruct H end.
-    repeat match goal with
-           | H : Nat.eqb _ _ = true |- _ => apply Nat.eqb_eq in H
-           | H : Nat.leb _ _ = true |- _ => apply Nat.leb_le in H
-           | H : negb (Nat.eqb _ _) = true |- _ => apply negb_true_iff, Nat.eqb_neq in H
-           end.
-    destruct (is_fut (tcore s)); repeat split; try lia; try discriminate; intros;
-      try (match goal with H : Bool.eqb _ _ = true |- _ => apply Bool.eqb_prop in H end);
-      try (rewrite <- H4; apply Nat.eqb_eq; assumption); try (apply Nat.eqb_eq; congruence).
-  - repeat match goal with H : _ && _ = true |- _ => apply andb_true_iff in H; destruct H end.
-    repeat match goal with
-           | H : Nat.eqb _ _ = true |- _ => apply Nat.eqb_eq in H
-           | H : Nat.leb _ _ = true |- _ => apply Nat.leb_le in H
-           | H : negb _ = true |- _ => apply negb_true_iff in H
-           end.
-    destruct (tcore s); try discriminate. cbn in *. repeat split; try lia; try discriminate; auto.
-Qed.
+Proof. exact inv_meaning. Qed.
 Print Assumptions c13_meaning.
 
 (* the model's initial states are the state words written by the source *)
